@@ -2,12 +2,16 @@
    requests (as completed by the harness with the oracle tables):
      (0 text dts res)    Query::parse(text), TryFrom<&str>, to_string, parse(to_string)
      (1 query dts res)   a query built through the public API: to_string, parse(to_string)
+     (3 kind qual depth items)  SELECT ANNOTATION ?x with one collection constraint (Annotations 0,
+                         Data 1, Keys 2, Resources 3, TextSelections 4) over the harness's fixed store;
+                         items = what the store says about each handle, () = no such item:
+                         (id) | (set key op) | (set key) | (id) | (res b e)
    dts = ((string canonical) ...)  strings chrono accepts as RFC 3339 and their to_rfc3339() form
    res = ((string ok) ...)         strings handed to Regex::new and whether it accepts them
    sub-cases: 0 parse outcome (or the built query), 1 printed text, 2 parse and print of the printed text *)
 From Coq Require Import List ZArith NArith Bool Arith.
 Import ListNotations.
-From Stam Require Import Base.Sx Model.StamqlLex Model.Stamql Model.StamqlSx Spec.StamqlSpec.
+From Stam Require Import Base.Sx Model.StamqlLex Model.Stamql Model.StamqlSx Model.StamqlColl Spec.StamqlSpec.
 
 Fixpoint lookup_str {X} (tab : list (str * X)) (s : str) : option X :=
   match tab with
@@ -75,12 +79,54 @@ Section Run.
     triple (e_query q) (e_query q) 0 :: print_and_back q.
 End Run.
 
+(* collection constraints *)
+Definition d_citem (kind : nat) (x : sx) : option citem :=
+  match sx_list x with
+  | [] => None
+  | _ =>
+      Some (match kind with
+            | 0 => IAnn (d_str (sx_nth 0 x))
+            | 1 => IData (d_str (sx_nth 0 x)) (d_str (sx_nth 1 x)) (d_dataop (sx_nth 2 x))
+            | 2 => IKey (d_str (sx_nth 0 x)) (d_str (sx_nth 1 x))
+            | 3 => IRes (d_str (sx_nth 0 x))
+            | _ => ITsel (d_str (sx_nth 0 x)) (d_big (sx_nth 1 x)) (d_big (sx_nth 2 x))
+            end)
+  end.
+
+Fixpoint all_some {X} (l : list (option X)) : option (list X) :=
+  match l with
+  | [] => Some []
+  | Some x :: l' => match all_some l' with Some r => Some (x :: r) | None => None end
+  | None :: _ => None
+  end.
+
+Definition coll_name : str := [120%N].
+
+Definition run_coll (x : sx) : list sx :=
+  let kind := sx_nat (sx_nth 1 x) in
+  let q := d_qual (sx_nth 2 x) in
+  let d := d_depth (sx_nth 3 x) in
+  match all_some (map (d_citem kind) (sx_list (sx_nth 4 x))) with
+  | None => [triple (e_print None) (e_print None) 0; triple na na 0]
+  | Some items =>
+      match print_coll_query coll_name RAnnotation q d items with
+      | None => [triple (e_print None) (e_print None) 0; triple na na 0]
+      | Some t =>
+          let expected := coll_query coll_name RAnnotation q d items in
+          [triple (e_print (Some t)) (e_print (Some t)) 0;
+           (* parsing the printed collection gives the union of the items' constraints *)
+           triple (e_reparse (parse_query (fun _ => None) (fun _ => true) t))
+                  (L [A 0; e_query expected; e_str []; e_print (print_query expected)]) 0]
+      end
+  end.
+
 Definition run_C09 (x : sx) : sx :=
   let dt := mk_dt (d_dts (sx_nth 2 x)) in
   let re := mk_re (d_res (sx_nth 3 x)) in
   match sx_nat (sx_nth 0 x) with
   | 0 => L (run_text dt re (d_str (sx_nth 1 x)))
   | 1 => L (run_built dt re (d_query 40 (sx_nth 1 x)))
+  | 3 => L (run_coll x)
   | _ =>
       (* (2 n mode): n nested "[ " (mode 0) or "{ SELECT ..." (mode 1), never closed: a syntax error
          is demanded.  Constraint::parse / parse_select recurse once per nesting level without a bound;
